@@ -142,6 +142,24 @@ static Sys genRandom(Rng& r) {
     return s;
 }
 
+static Sys genExtremeOffsets(Rng& r) {
+    // few variables spanning (almost) the whole window and offsets around the largest meaningful difference (63)
+    Sys s;
+    s.nv = r.range(2, 3);
+    for (int i = 0; i < s.nv; i++) {
+        int lo = -16 + (r.chance(60) ? 0 : r.range(0, 3)), hi = 47 - (r.chance(60) ? 0 : r.range(0, 3));
+        s.lo.push_back(lo); s.hi.push_back(hi); s.par.push_back(r.chance(70) ? 0 : r.range(1, 2)); s.pref.push_back(r.below(4));
+    }
+    int nc = r.range(1, 4);
+    for (int k = 0; k < nc; k++) {
+        Con c; c.v1 = r.below(s.nv); c.v2 = r.below(s.nv);
+        int mag = (const int[]){60, 61, 62, 63, 63, 64, 64, 65, 70}[r.below(9)];
+        c.c = r.chance(50) ? mag : -mag; c.kind = r.below(3);
+        s.cons.push_back(c);
+    }
+    return s;
+}
+
 static Sys genStructured(Rng& r) {
     // shaped like extproofkernel.cpp: ranks of captures along pawn chains
     Sys s;
@@ -194,8 +212,8 @@ int main(int argc, char** argv) {
     int samples = 0;
     for (long long it = 0; it < n; it++) {
         int g = r.below(100);
-        Sys s = g < 60 ? genRandom(r) : g < 97 ? genStructured(r) : genMany(r);
-        stat[g < 60 ? "gen_random" : g < 97 ? "gen_structured" : "gen_192_constraints"]++;
+        Sys s = g < 55 ? genRandom(r) : g < 60 ? genExtremeOffsets(r) : g < 97 ? genStructured(r) : genMany(r);
+        stat[g < 55 ? "gen_random" : g < 60 ? "gen_extreme_offsets" : g < 97 ? "gen_structured" : "gen_192_constraints"]++;
         std::string desc = s.str();
         snprintf(crumb, sizeof(crumb), "%s", desc.c_str());
         // effective ranges after the tightenings (all inside the window, the solver's supported limits)
